@@ -56,8 +56,10 @@ def normal_form_ok(lst, dt):
 
 
 def satisfies_precondition(seq):
+    """'absolute values of the input must be a decreasing sequence, excluding zero items'; equal neighbours (a, -a: cancellation) are accepted -
+    the unchanged code meets the two-pass normal form on them"""
     nz = [abs(float(v)) for v in seq if v != 0]
-    return all(a > b for a, b in zip(nz, nz[1:]))
+    return all(a >= b for a, b in zip(nz, nz[1:]))
 
 
 def gen_expansion(rnd, dt, n=None):
@@ -92,6 +94,10 @@ def gen_expansion(rnd, dt, n=None):
             e -= rnd.randint(0, 2 * p)
     if pat == "cancel" and n >= 2:
         seq[1] = -seq[0]
+    head_cancel = None
+    if rnd.random() < 0.12 and n >= 2 and pat not in ("random-order",):
+        # the leading items cancel exactly or up to one ulp: [a, -a, b..], [-a, a+ulp(a), small..]
+        head_cancel = rnd.choice(["exact", "ulp"])
     if pat == "zeros" or rnd.random() < 0.15:
         for k in range(n):
             if rnd.random() < 0.3:
@@ -110,6 +116,16 @@ def gen_expansion(rnd, dt, n=None):
         it = iter(nz)
         seq = [v if v == 0 else next(it) for v in seq]
     seq = [v for v in seq if numpy.isfinite(v)] or [dt(1)]
+    if head_cancel and len(seq) >= 2 and seq[0] != 0 and numpy.isfinite(seq[0]):
+        a = seq[0]
+        if head_cancel == "exact":
+            seq[1] = -a
+        else:
+            with numpy.errstate(all="ignore"):
+                b = numpy.nextafter(a, dt(numpy.inf) if a > 0 else dt(-numpy.inf))
+            if numpy.isfinite(b):
+                seq[0], seq[1] = b, -a
+        pat = pat + "+head-cancel"
     return seq, pat
 
 
@@ -175,6 +191,15 @@ def check_two_pass(rec, apmath, ctx, dt, seq, pat, functional, fast):
         return
     rec.count("judged:normal-form")
     ok, why = normal_form_ok(r2, dt)
+    if ok:
+        # "ordered by decreasing magnitude": a zero item is never followed by a non-zero one
+        seen_zero = False
+        for v in r2:
+            if v == 0:
+                seen_zero = True
+            elif seen_zero:
+                ok, why = False, "zero-before-nonzero"
+                break
     if not ok:
         rec.violation(f"normal-form-after-two-passes:{why}:{'functional' if functional else 'eager'}" + (":fast" if fast else ""),
                       dict(dtype=numpy.dtype(dt).name, seq=list(seq), pass1=list(r1), pass2=list(r2), functional=functional, fast=fast, pattern=pat))
@@ -202,6 +227,23 @@ def task_expansions(params, rec):
             sz = rnd.randint(1, len(seq))
             with numpy.errstate(all="ignore"):
                 apmath.renormalize(ctx, list(seq), functional=functional, fast=False, size=sz)
+        # a size limit may only change the sum when there is something to truncate: if the unlimited result has k non-zero items, every limit >= k
+        # must still return the exact sum (the contract above skips limited calls whose output is full)
+        if len(seq) > 1 and rnd.random() < 0.5:
+            with numpy.errstate(all="ignore"):
+                full = apmath.renormalize(ctx, list(seq), functional=functional, fast=False)
+            if all(numpy.isfinite(v) for v in full):
+                knz = max(1, sum(1 for v in full if v != 0))
+                for sz in range(knz, len(seq) + 1):
+                    with numpy.errstate(all="ignore"):
+                        rs = apmath.renormalize(ctx, list(seq), functional=functional, fast=False, size=sz)
+                    if not all(numpy.isfinite(v) for v in rs):
+                        continue
+                    rec.count("judged:size-limit-without-truncation")
+                    if usum(seq, dt) != usum(rs, dt):
+                        rec.violation("renormalize-size-limit-changes-sum-with-nothing-to-truncate:" + ("functional" if functional else "eager"),
+                                      dict(dtype=params["dtype"], seq=list(seq), unlimited=list(full), size=sz, result=list(rs), functional=functional, pattern=pat))
+                        break
         # add / subtract
         seq2, pat2 = gen_expansion(rnd, dt, n=rnd.randint(1, 3))
         a1 = seq[:3]
@@ -247,6 +289,35 @@ def task_expansions(params, rec):
                         rec.violation(f"{op}-error-bound", dict(dtype=params["dtype"], x=list(x), y=list(y) if op == "multiply" else None, result=list(r), functional=functional,
                                                                  error_in_ulps_of_leading=float(abs(got - ex) / bound)))
                     rec.cls(op, functional, params["dtype"], n1, n2 if op == "multiply" else 0)
+        # the same bound on lists that are not normalised (overlapping, mixed signs, equal magnitudes, zeros): products of such lists are what add /
+        # multiply chains feed each other before a final renormalisation; float32/float64 only (float16 partial products underflow)
+        if f.bits >= 32 and i % 2 == 0:
+            def raw_list(n):
+                e = rnd.randint(-6, 6)
+                out = []
+                for k in range(n):
+                    m = rnd.randint(1 << (f.p - 1), (1 << f.p) - 1) if rnd.random() < 0.8 else (1 << (f.p - 1)) + rnd.choice([0, 1, 3])
+                    out.append(dt(rnd.choice([-1, 1]) * numpy.ldexp(float(m), e - f.p + 1)))
+                    e -= rnd.choice([0, 0, 1, 2, f.p // 2, f.p])
+                if rnd.random() < 0.2:
+                    out[rnd.randrange(n)] = dt(0)
+                return out
+
+            x, y = raw_list(rnd.randint(1, 3)), raw_list(rnd.randint(1, 3))
+            for op in ("multiply", "square"):
+                with numpy.errstate(all="ignore"):
+                    r = apmath.multiply(ctx, list(x), list(y), functional=functional) if op == "multiply" else apmath.square(ctx, list(x), functional=functional)
+                if not r or not all(numpy.isfinite(v) for v in r):
+                    continue
+                k = exact.units_exp(dt)
+                ex = usum(x, dt) * (usum(y, dt) if op == "multiply" else usum(x, dt))
+                got = usum(r, dt) << (-k)
+                lead = max(r, key=lambda v: abs(float(v)))
+                bound = ulp_units(lead, dt) << (-k)
+                rec.count("judged:" + op + ":unnormalised")
+                if abs(got - ex) >= bound:
+                    rec.violation(f"{op}-error-bound:unnormalised-operands", dict(dtype=params["dtype"], x=list(x), y=list(y) if op == "multiply" else None, result=list(r),
+                                                                                   functional=functional, error_in_ulps_of_leading=float(abs(got - ex) / bound)))
         if i < 2:
             rec.sample(dict(dtype=params["dtype"], seq=list(seq), pattern=pat, functional=functional, fast=fast))
     contracts.detach_all()
